@@ -18,8 +18,9 @@ pub struct OverlapEngine;
 impl Engine for OverlapEngine {
     fn step(&mut self, toks: &[&str], out: &mut Vec<String>) {
         match toks {
-            // run PARK_MS GAP_MS
-            ["run", park, gap] => {
+            // run PARK_MS GAP_MS [after]
+            ["run", park, gap] | ["run", park, gap, "after"] => {
+                let late = toks.len() == 4;
                 let (park, gap): (u64, u64) = match (park.parse(), gap.parse()) {
                     (Ok(a), Ok(b)) => (a, b),
                     _ => return out.push("bad-op".into()),
@@ -50,7 +51,11 @@ impl Engine for OverlapEngine {
                     let ch2 = conn.open_channel(Some(2)).unwrap();
                     std::thread::sleep(Duration::from_millis(30));
                     // the pass that takes call 1's request will be held just before it polls again
-                    peer2.park_next_rereg(park);
+                    if late {
+                        peer2.park_after_next_rereg(park);
+                    } else {
+                        peer2.park_next_rereg(park);
+                    }
                     let (t1, t2) = (tx.clone(), tx.clone());
                     let a = std::thread::spawn(move || {
                         let r = ch1.queue_declare("a", QueueDeclareOptions::default()).map(|q| q.name().to_string());
